@@ -8,6 +8,8 @@ import (
 	"math/rand"
 	"os"
 	"path/filepath"
+	"regexp"
+	"sort"
 	"strconv"
 	"strings"
 	"sync"
@@ -23,6 +25,10 @@ func init() { register("C02", checkC02) }
 //	   body activations with the prescribed bindings; each configuration is
 //	   rendered to a program + in-memory files + selectors, run on the real
 //	   evaluator, and stdout must equal the model's observation line for line.
+//	   Family "cells": the bodies also WRITE through the bindings ($ = v,
+//	   $.p = v, $file = v) and selectors select the same subtree twice or one
+//	   inside the other; the model re-binds $ per rule (BEGIN, END) and per
+//	   round, $file per JSON value, so that no write may outlive them.
 //	B  larger seeded random configurations are run with the hooks on; the
 //	   recorded events are validated by TLC against JqDriver's actions
 //	   (Trace_Driver.tla), acceptance by POSTCONDITION.
@@ -36,11 +42,36 @@ type c02Root struct {
 }
 
 type c02Cfg struct {
-	Rules [][]string    `json:"rules"` // [kind, pat, body]
+	Rules [][]string    `json:"rules"` // [kind, pat, body, write] (write absent = "none")
 	NSel  int           `json:"nsel"`
+	Sels  []int         `json:"sels"`  // per selector the key it picks, 1-based (0: the whole value); absent = 1..nsel
 	Files [][][]c02Root `json:"files"` // [file][value][selector]
-	Lines [][]int       `json:"lines"` // [rule, dollar type, f, v, s, e, $index, $file]
-	Exit  bool          `json:"exit"`
+	// [rule, dollar type, f, v, s, e, $index, $file, $ open, $file cell (0 names the file, r > 0 written by rule r, -1 open),
+	//  overlay of $: tag (0 none, 1 member p written, 2 whole cell written), rule; then per element of an array root: tag, rule]
+	Lines [][]int `json:"lines"`
+	Exit  bool    `json:"exit"`
+}
+
+func c02W(rule []string) string {
+	if len(rule) > 3 {
+		return rule[3]
+	}
+	return "none"
+}
+
+// c02Cells tells whether a configuration belongs to the writing families.
+func c02Cells(cfg *c02Cfg) bool {
+	for _, r := range cfg.Rules {
+		if c02W(r) != "none" {
+			return true
+		}
+	}
+	for i, k := range cfg.Sels {
+		if k != i+1 {
+			return true
+		}
+	}
+	return false
 }
 
 // c02Mat is one concrete rendering of a configuration.
@@ -155,10 +186,16 @@ func c02Print(v any, top bool) string {
 		}
 		return "[" + strings.Join(parts, ", ") + "]"
 	case map[string]any:
-		for k, x := range t {
-			return `{"` + k + `": ` + c02Print(x, false) + "}"
+		keys := make([]string, 0, len(t))
+		for k := range t {
+			keys = append(keys, k)
 		}
-		return "{}"
+		sort.Strings(keys)
+		parts := make([]string, len(keys))
+		for i, k := range keys {
+			parts[i] = `"` + k + `": ` + c02Print(t[k], false)
+		}
+		return "{" + strings.Join(parts, ", ") + "}"
 	}
 	infra("C02: cannot print %T", v)
 	return ""
@@ -183,8 +220,19 @@ func c02Render(cfg *c02Cfg, seed int64, names func(i int) string) *c02Mat {
 	// selectors: distinct keys in a seeded order
 	keys := append([]string{}, c02Keys...)
 	r.Shuffle(len(keys), func(i, j int) { keys[i], keys[j] = keys[j], keys[i] })
-	for s := 0; s < cfg.NSel; s++ {
-		m.Sels = append(m.Sels, "$."+keys[s])
+	sels := cfg.Sels
+	if len(sels) != cfg.NSel {
+		sels = make([]int, cfg.NSel)
+		for s := range sels {
+			sels[s] = s + 1
+		}
+	}
+	for _, k := range sels {
+		if k == 0 {
+			m.Sels = append(m.Sels, "$")
+		} else {
+			m.Sels = append(m.Sels, "$."+keys[k-1])
+		}
 	}
 	// inputs
 	m.AllArrays = true
@@ -200,13 +248,31 @@ func c02Render(cfg *c02Cfg, seed int64, names func(i int) string) *c02Mat {
 			}
 		}
 	}
+	bfAssigns := false // a BEGINFILE rule may turn an array root into a scalar: $index is then read outside an array round
+	for _, rule := range cfg.Rules {
+		if rule[0] == "BF" && c02W(rule) == "sd" {
+			bfAssigns = true
+		}
+	}
 	for f, file := range cfg.Files {
 		var data bytes.Buffer
 		var fvals [][]any
 		for _, val := range file {
 			var roots []any
-			for _, root := range val {
+			byKey := map[int]any{} // selectors of the same key select the same subtree
+			for s, root := range val {
 				var cv any
+				if s < len(sels) {
+					if sels[s] == 0 {
+						m.AllArrays = false
+						roots = append(roots, nil) // the whole value: filled in below
+						continue
+					}
+					if prev, ok := byKey[sels[s]]; ok {
+						roots = append(roots, prev)
+						continue
+					}
+				}
 				if root.A {
 					arr := make([]any, 0, len(root.Es))
 					for _, k := range root.Es {
@@ -217,23 +283,39 @@ func c02Render(cfg *c02Cfg, seed int64, names func(i int) string) *c02Mat {
 					m.AllArrays = false
 					cv = m.elem(root.Es[0])
 				}
+				if s < len(sels) {
+					byKey[sels[s]] = cv
+				}
 				roots = append(roots, cv)
 			}
-			fvals = append(fvals, roots)
 			if cfg.NSel == 0 {
 				data.WriteString(c02JSON(roots[0]))
 			} else {
 				// an object holding the selected roots under the selector keys, in a seeded member order
-				perm := r.Perm(cfg.NSel)
-				parts := []string{}
-				for _, s := range perm {
-					parts = append(parts, c02JSON(keys[s])+": "+c02JSON(roots[s]))
+				var ks []int
+				for k := range byKey {
+					ks = append(ks, k)
 				}
-				if r.Intn(3) == 0 {
+				sort.Ints(ks)
+				r.Shuffle(len(ks), func(i, j int) { ks[i], ks[j] = ks[j], ks[i] })
+				doc := map[string]any{}
+				parts := []string{}
+				for _, k := range ks {
+					parts = append(parts, c02JSON(keys[k-1])+": "+c02JSON(byKey[k]))
+					doc[keys[k-1]] = byKey[k]
+				}
+				if r.Intn(3) == 0 || len(ks) == 0 {
 					parts = append(parts, `"zz": [9, 9]`)
+					doc["zz"] = []any{float64(9), float64(9)}
 				}
 				data.WriteString("{" + strings.Join(parts, ", ") + "}")
+				for s := range roots {
+					if s < len(sels) && sels[s] == 0 {
+						roots[s] = doc
+					}
+				}
 			}
+			fvals = append(fvals, roots)
 			if r.Intn(2) == 0 {
 				data.WriteString("\n")
 			} else {
@@ -245,6 +327,9 @@ func c02Render(cfg *c02Cfg, seed int64, names func(i int) string) *c02Mat {
 		}
 		m.Vals = append(m.Vals, fvals)
 		m.Files = append(m.Files, FileIn{Name: names(f), Data: append([]byte{}, data.Bytes()...)})
+	}
+	if bfAssigns {
+		m.AllArrays = false
 	}
 	// program
 	sep := "\n"
@@ -280,6 +365,11 @@ func c02Render(cfg *c02Cfg, seed int64, names func(i int) string) *c02Mat {
 				if allObjs {
 					head = "$.p"
 				}
+			case "nmemb":
+				head = "!($ is object && $.p)"
+				if allObjs {
+					head = "!$.p"
+				}
 			default:
 				infra("C02: unknown pattern %q", pat)
 			}
@@ -307,12 +397,26 @@ func c02Render(cfg *c02Cfg, seed int64, names func(i int) string) *c02Mat {
 		if r.Intn(3) == 0 {
 			ssep = "\n  "
 		}
+		// what the body writes after printing: the label of the rule, a non-empty string
+		wlabel := fmt.Sprintf(`"w%d"`, i+1)
+		var wr []string
+		switch c02W(rule) {
+		case "none":
+		case "sd":
+			wr = []string{"$ = " + wlabel}
+		case "sf":
+			wr = []string{"$file = " + wlabel}
+		case "sm":
+			wr = []string{"if ($ is object) $.p = " + wlabel}
+		default:
+			infra("C02: unknown write %q", c02W(rule))
+		}
 		var stmts []string
 		switch body {
 		case "print":
-			stmts = []string{pr}
+			stmts = append([]string{pr}, wr...)
 		case "next", "exit":
-			stmts = []string{pr, body}
+			stmts = append(append([]string{pr}, wr...), body)
 			if r.Intn(2) == 0 {
 				stmts = append(stmts, `print "unreachable"`)
 			}
@@ -330,14 +434,50 @@ func c02Render(cfg *c02Cfg, seed int64, names func(i int) string) *c02Mat {
 	return m
 }
 
+// wildcards in an expected stdout: one token (no blank), the rest of the line
+const (
+	c02AnyTok  = "\x00T"
+	c02AnyRest = "\x00R"
+)
+
+// c02Overlay applies what the model says was written into a cell: tag 0 nothing,
+// 1 the member p of the object in it (by rule r), 2 the whole cell (by rule r).
+func c02Overlay(v any, tag, r int) any {
+	switch tag {
+	case 0:
+		return v
+	case 1:
+		obj, ok := v.(map[string]any)
+		if !ok {
+			infra("C02: member written in a non-object %v", v)
+		}
+		out := map[string]any{}
+		for k, x := range obj {
+			out[k] = x
+		}
+		out["p"] = "w" + strconv.Itoa(r)
+		return out
+	case 2:
+		return "w" + strconv.Itoa(r)
+	}
+	infra("C02: bad overlay tag %d", tag)
+	return nil
+}
+
 // c02Expect renders the model's activations to the lines the program must print.
 func c02Expect(cfg *c02Cfg, m *c02Mat) string {
 	var sb strings.Builder
 	for _, ln := range cfg.Lines {
-		if len(ln) != 8 {
+		if len(ln) < 8 {
 			infra("C02: bad activation %v", ln)
 		}
 		ri, dt, f, v, s, e, x, fb := ln[0], ln[1], ln[2], ln[3], ln[4], ln[5], ln[6], ln[7]
+		dopen, fw, ctag, cr := 0, 0, 0, 0
+		var els []int
+		if len(ln) >= 12 {
+			dopen, fw, ctag, cr = ln[8], ln[9], ln[10], ln[11]
+			els = ln[12:]
+		}
 		rule := cfg.Rules[ri-1]
 		kind, body := rule[0], rule[2]
 		if body == "noop" {
@@ -352,13 +492,39 @@ func c02Expect(cfg *c02Cfg, m *c02Mat) string {
 		case 1:
 			dollar = "null"
 		case 2:
-			dollar = c02Print(m.Vals[f-1][v-1][s-1], true)
+			root := c02Overlay(m.Vals[f-1][v-1][s-1], ctag, cr)
+			if len(els) > 0 {
+				arr, ok := root.([]any)
+				if !ok || len(els) != 2*len(arr) {
+					infra("C02: element overlays %v on %v", els, root)
+				}
+				shown := make([]any, len(arr))
+				for i := range arr {
+					shown[i] = c02Overlay(arr[i], els[2*i], els[2*i+1])
+				}
+				root = shown
+			}
+			dollar = c02Print(root, true)
 		case 3:
-			dollar = c02Print(m.Vals[f-1][v-1][s-1].([]any)[e], true)
+			dollar = c02Print(c02Overlay(m.Vals[f-1][v-1][s-1].([]any)[e], ctag, cr), true)
+		}
+		if dopen == 1 {
+			dollar = c02AnyRest
 		}
 		if body == "bare" {
 			sb.WriteString(dollar + "\n")
 			continue
+		}
+		file := ""
+		if kind == "BF" || kind == "P" || kind == "EF" {
+			switch {
+			case fw == 0:
+				file = m.Files[fb-1].Name
+			case fw > 0:
+				file = "w" + strconv.Itoa(fw)
+			default:
+				file = c02AnyTok
+			}
 		}
 		line := fmt.Sprintf("r%d", ri)
 		switch kind {
@@ -367,15 +533,45 @@ func c02Expect(cfg *c02Cfg, m *c02Mat) string {
 			line += " " + dollar
 		case "P":
 			if m.AllArrays {
-				line += " " + strconv.Itoa(x)
+				if dt == 3 {
+					line += " " + strconv.Itoa(x)
+				} else {
+					line += " " + c02AnyTok // $index outside an array round: open
+				}
 			}
-			line += " " + dollar + " " + m.Files[fb-1].Name
+			line += " " + dollar + " " + file
 		default:
-			line += " " + dollar + " " + m.Files[fb-1].Name
+			line += " " + dollar + " " + file
 		}
 		sb.WriteString(line + "\n")
 	}
 	return sb.String()
+}
+
+// c02Match compares the real stdout with the expected one, wildcards included.
+func c02Match(exp, got string) bool {
+	if !strings.Contains(exp, "\x00") {
+		return exp == got
+	}
+	el, gl := strings.Split(exp, "\n"), strings.Split(got, "\n")
+	if len(el) != len(gl) {
+		return false
+	}
+	for i := range el {
+		if !strings.Contains(el[i], "\x00") {
+			if el[i] != gl[i] {
+				return false
+			}
+			continue
+		}
+		pat := regexp.QuoteMeta(el[i])
+		pat = strings.ReplaceAll(pat, regexp.QuoteMeta(c02AnyTok), `[^ ]+`)
+		pat = strings.ReplaceAll(pat, regexp.QuoteMeta(c02AnyRest), `.*`)
+		if ok, _ := regexp.MatchString("^"+pat+"$", gl[i]); !ok {
+			return false
+		}
+	}
+	return true
 }
 
 func c02Name(i int) string { return "f" + strconv.Itoa(i) }
@@ -389,6 +585,9 @@ type c02Tag struct {
 var c02Invariants = []string{"TypeOK", "PartitionLaw", "Ordered", "BeginFirst", "EndLast", "EndDollarNull", "Bindings",
 	"SourceOrderWithinElement", "BodyIffPattern", "NextSkipsRestOfElementOnly", "ExitAbsorbing", "ElementMultiplicity",
 	"DenoteLaw", "ShapeLaw"}
+
+// the laws about re-binding; checked where bodies write (without writes they hold trivially)
+var c02CellInvariants = []string{"FreshBindings", "WritesLast"}
 
 type c02Run struct {
 	fam                                 string
@@ -408,6 +607,11 @@ func (r c02Run) cfg() string {
 	for _, inv := range c02Invariants {
 		lines = append(lines, "INVARIANT "+inv)
 	}
+	if r.alpha == "cells" {
+		for _, inv := range c02CellInvariants {
+			lines = append(lines, "INVARIANT "+inv)
+		}
+	}
 	lines = append(lines, "INVARIANT Vec", "PROPERTY Absorbing")
 	if r.sim > 0 {
 		lines = append(lines, "CHECK_DEADLOCK FALSE")
@@ -417,12 +621,15 @@ func (r c02Run) cfg() string {
 
 func checkC02(c *Ctx) {
 	c.Assume("$ in BEGIN rules is not compared (the statement fixes $ = null for END only); BEGIN rules print their label only and are never written without a body")
-	c.Assume("$ in ENDFILE is compared only for programs whose BEGINFILE rules do not reassign $ (none here does)")
+	c.Assume("$ in ENDFILE is not compared once the root cell of the round was assigned as a whole ($ = v in a BEGINFILE or ENDFILE rule, or in a pattern rule of a non-array root); member and element writes of the round are compared there")
+	c.Assume("writes: a body writes after its print, so every activation shows what the EARLIER activations left; $ = v in a BEGINFILE rule makes the root that scalar for the rest of the round (README: -r E is BEGINFILE { $ = E }); $.p = v is guarded by `$ is object`")
+	c.Assume("$file after the program overwrote it: compared within the round of the write (the written value) and from the next JSON value on (the file name again); in a later selector round of the same value it is left open")
+	c.Assume("multi-key objects (a member written into an object, the whole value selected by `$`) are expected with their keys in sorted order, as the interpreter prints them since the fix of F11")
 	c.Assume("$index is printed only in configurations whose roots are all arrays: its value outside an array round is left open")
 	c.Assume("$file is printed in BEGINFILE / pattern / ENDFILE rules only (BEGIN: unset; END: left open)")
 	c.Assume("next is placed in pattern-rule bodies only (next elsewhere is property C01's business); exit anywhere")
 	c.Assume("printed values are scalars, arrays and objects with at most one key (multi-key objects print in map order: C10); the print format of these is taken from the documented format (C17 owns it)")
-	c.Assume("a rule without a body cannot be written directly before a pattern rule without a pattern (the grammar reads it as that rule's body); such rule lists are outside the domain")
+	c.Assume("a rule without a body cannot be written directly before a pattern rule without a pattern (the grammar reads it as that rule's body) nor before a pattern beginning with `!` (read as an operator); such rule lists are outside the domain")
 	c.Assume("selectors are member accesses $.key over an object holding the chosen roots")
 	c.Assume("data-driven patterns are `$` (truthiness of the element, DESIGN.md 3.1) and `$.p`, written `$ is object && $.p` when some element is not an object (member access on non-objects is not part of this property)")
 	pool := c.Pool()
@@ -447,8 +654,12 @@ func checkC02(c *Ctx) {
 			c.Violation("schedule-outcome", rep)
 			return
 		}
-		if string(r.Stdout) != tag.Exp {
-			c.Violation("schedule", rep)
+		if !c02Match(tag.Exp, string(r.Stdout)) {
+			name := "schedule"
+			if c02Cells(tag.Cfg) {
+				name = "schedule-cells"
+			}
+			c.Violation(name, rep)
 			return
 		}
 		c.Case("a:"+string(j.Prog)+"\x00"+strings.Join(j.Sels, "\x00")+"\x00"+c02FilesKey(j.Files), len(tag.Exp) > 0)
@@ -472,7 +683,7 @@ func checkC02(c *Ctx) {
 			}
 			if len(j.Files) > 0 {
 				br := c.RunBin(args, nil, dir, 20*time.Second)
-				if !br.TimedOut && (br.Exit != 0 || string(br.Stdout) != tag.Exp) {
+				if !br.TimedOut && (br.Exit != 0 || !c02Match(tag.Exp, string(br.Stdout))) {
 					rep["binary_args"] = args
 					rep["binary_stdout"] = string(br.Stdout)
 					rep["binary_stderr"] = string(br.Stderr)
@@ -519,7 +730,10 @@ func checkC02(c *Ctx) {
 			{fam: "rules", alpha: "core", maxRules: 4, sel: "{6}", nsel: "{0}"},
 			{fam: "inputs", alpha: "full", maxFiles: 2, maxVals: 1, sel: "{}", nsel: "{0, 1, 2}"},
 			{fam: "sim", alpha: "full", maxRules: 6, maxFiles: 3, maxVals: 3, maxArr: 3, sel: "{}", nsel: "{0, 1, 2}", sim: 200},
+			{fam: "cells", alpha: "cells", maxRules: 2, sel: all, nsel: "{0}"},
+			{fam: "sim", alpha: "cells", maxRules: 6, maxFiles: 3, maxVals: 3, maxArr: 3, sel: "{}", nsel: "{0, 1, 2}", sim: 100},
 		}
+		bounds["cells"] = "all lists <= 2 of writing rules (31 symbols: $ = v, $.p = v, $file = v after the print) x 6 fixed inputs (several values per file; selectors selecting the same subtree twice, a subtree and the whole value); 8 x 100 random behaviours with writing rules and such selector lists"
 		bounds["rules"] = "all rule lists <= 2 over the 30-symbol alphabet x 6 fixed inputs, <= 3 x fixed input " + big + ", <= 4 over the 8-symbol core alphabet x input 6"
 		bounds["inputs"] = "files <= 2, values per file <= 1, nsel 0..2, 6 root shapes x 6 fixed rule lists"
 		bounds["sim"] = "8 x 200 random behaviours: rules <= 6, files <= 3, values <= 3, array length <= 3, nsel <= 2"
@@ -531,7 +745,11 @@ func checkC02(c *Ctx) {
 			{fam: "inputs", alpha: "full", maxFiles: 2, maxVals: 2, sel: "{}", nsel: "{0, 1}"},
 			{fam: "inputs", alpha: "full", maxFiles: 2, maxVals: 1, sel: "{}", nsel: "{2}"},
 			{fam: "sim", alpha: "full", maxRules: 6, maxFiles: 3, maxVals: 3, maxArr: 3, sel: "{}", nsel: "{0, 1, 2}", sim: 4000},
+			{fam: "cells", alpha: "cells", maxRules: 2, sel: all, nsel: "{0}"},
+			{fam: "cells", alpha: "cells", maxRules: 3, sel: "{3, 6}", nsel: "{0}"},
+			{fam: "sim", alpha: "cells", maxRules: 6, maxFiles: 3, maxVals: 3, maxArr: 3, sel: "{}", nsel: "{0, 1, 2}", sim: 2000},
 		}
+		bounds["cells"] = "all lists <= 2 of writing rules (31 symbols: $ = v, $.p = v, $file = v after the print) x 6 fixed inputs (several values per file; selectors selecting the same subtree twice, a subtree and the whole value), <= 3 x inputs 3 and 6; 8 x 2000 random behaviours with writing rules and such selector lists"
 		bounds["rules"] = "all rule lists <= 3 over the 30-symbol alphabet x 6 fixed inputs; <= 5 over the 8-symbol core alphabet x input 6, <= 4 x inputs 1..3"
 		bounds["inputs"] = "files <= 2, values per file <= 2 (nsel 0, 1) / <= 1 (nsel 2), 6 root shapes x 6 fixed rule lists"
 		bounds["sim"] = "8 x 4000 random behaviours: rules <= 6, files <= 3, values <= 3, array length <= 3, nsel <= 2"
